@@ -6,7 +6,7 @@ import itertools
 
 from mc import pool, seams, factory_engine as F
 
-CHARS = ["a", ",", " ", "[", "]", "é", "b", "\"", "\\"]
+CHARS = ["a", ",", " ", "[", "]", "é", "b", "\"", "\\", "\r\n", "\n"]
 
 
 def values(maxlen):
